@@ -6,27 +6,42 @@
 (*   "startup": start-up steps interleave freely, page work runs afterwards  *)
 (*              one worker at a time;                                        *)
 (*   "work":    workers start one after the other, page work interleaves;    *)
+(*   "life":    lifetimes: at most one worker is at work at a time (workers  *)
+(*              start in index order), but every context - the creating one   *)
+(*              included - closes at any moment, also in the middle of        *)
+(*              another worker's start-up or page work;                      *)
 (*   "all":     no restriction (used with -simulate).                        *)
+(* In "startup" and "work" the contexts are closed at the end, in order.     *)
 EXTENDS MC_Workers, Json
 
 CONSTANT Focus
 VARIABLE sched
-gvars == <<scn, pmain, pbak, ino, wlock, pc, conn, snap, saw, res, chk, raced, snapfail, sched>>
+gvars == <<scn, pmain, pbak, ino, wlock, pc, conn, snap, saw, res, chk, raced, snapfail, opn, life, sched>>
 
 StartupLabels == {"exists", "unlink", "rename", "connect", "script"}
 InStartup(p) == pc[p] \in StartupLabels
+WorkDone == \A q \in Procs : Finished(q)
+CloseLast(p) == WorkDone /\ \A q \in PAll : (q < p) => Ended(q)
+MidRun(q) == ~Finished(q) /\ pc[q] # "exists"
 Allowed(p) ==
   CASE Focus = "startup" ->
-         IF InStartup(p) THEN TRUE
+         IF Finished(p) THEN CloseLast(p)
+         ELSE IF InStartup(p) THEN TRUE
          ELSE /\ \A q \in Procs : ~InStartup(q)
               /\ \A q \in Procs : (q < p) => Finished(q)
     [] Focus = "work" ->
-         IF InStartup(p) THEN \A q \in Procs : (q < p) => ~InStartup(q)
+         IF Finished(p) THEN CloseLast(p)
+         ELSE IF InStartup(p) THEN \A q \in Procs : (q < p) => ~InStartup(q)
          ELSE \A q \in Procs : ~InStartup(q)
+    [] Focus = "life" ->
+         IF Finished(p) THEN TRUE
+         ELSE /\ \A q \in Procs \ {p} : ~MidRun(q)
+              /\ pc[p] = "exists" => \A q \in Procs : (q < p) => pc[q] # "exists"
     [] OTHER -> TRUE
 
 GInit == Init /\ sched = <<>>
-GNext == \/ \E p \in Procs : Allowed(p) /\ Step(p) /\ sched' = Append(sched, [p |-> p, l |-> pc[p]])
+GNext == \/ \E p \in PAll : Allowed(p) /\ Step(p)
+                           /\ sched' = Append(sched, [p |-> p, l |-> IF Finished(p) THEN "close" ELSE pc[p]])
          \/ AllDone /\ UNCHANGED gvars
 GSpec == GInit /\ [][GNext]_gvars
 
@@ -36,6 +51,6 @@ Emit ==
     PrintT(<<"CASE", ToJson([scn |-> scn, sched |-> sched,
                              res |-> [i \in 1..Cardinality(Procs) |-> res[i]],
                              store |-> (pmain # 0 /\ ino[pmain].c \ {"boot"} = {Exp}),
-                             raced |-> raced, snapfail |-> snapfail])>>)
+                             raced |-> raced, snapfail |-> snapfail, life |-> life])>>)
 GenInv == Emit
 =============================================================================
